@@ -197,6 +197,7 @@ func Run(c *engine.Ctx) {
 	}
 	crafted(c, fds)
 	stringContents(c, fds)
+	deepNesting(c, fds)
 	for _, b := range bases() {
 		b := b
 		if b.Label == "full20" && !c.Thorough() {
@@ -363,4 +364,34 @@ func diffCase(t *engine.T, fds []protoreflect.FieldDescriptor, n1, n2 *sbom.Node
 		t.NonTrivial()
 	}
 	return nil
+}
+
+// deepNesting: supplier contact chains of depth 1..130; an edit of the person at any level is one differing attribute
+// (suppliers), reported once and reconstructible, in both directions.
+func deepNesting(c *engine.Ctx, fds []protoreflect.FieldDescriptor) {
+	c.Group("deep-nesting")
+	depths := gen.DepthLadder(130)
+	c.Bound("deep-nesting", fmt.Sprintf("supplier contact chains of depth %v x an edit of the person at every level, both directions", depths))
+	for _, d := range depths {
+		for dir := 0; dir < 2; dir++ {
+			d, dir := d, dir
+			c.Case(func() any { return map[string]any{"depth": d, "reverse": dir == 1} }, func(t *engine.T) *engine.Violation {
+				mk := func() *sbom.Node {
+					return &sbom.Node{Id: "a", Name: "n", Suppliers: []*sbom.Person{gen.ContactChain(d)}}
+				}
+				for level := 0; level <= d; level++ {
+					n1, n2 := mk(), mk()
+					gen.PersonAt(n2.Suppliers[0], level).Name += "x"
+					if dir == 1 {
+						n1, n2 = n2, n1
+					}
+					if v := diffCase(t, fds, n1, n2, fmt.Sprint("deep", d, level, dir)); v != nil {
+						v.Detail = fmt.Sprintf("contact chain of depth %d, person at level %d edited: %s", d, level, v.Detail)
+						return v
+					}
+				}
+				return nil
+			})
+		}
+	}
 }
